@@ -11,6 +11,7 @@ import (
 
 	"verif/internal/ev"
 	"verif/internal/opdrv"
+	"verif/internal/vstore"
 )
 
 // ---------- the sequential liveness model ----------
@@ -33,6 +34,11 @@ type mTok struct {
 }
 
 func (t *mTok) access() bool { return t.Kind == "opaque" || t.Kind == "jwt" }
+
+// colonSubject: an opaque access token of a user whose subject contains ':'. The opaque format "<id>:<subject>" is read
+// back by splitting at ':' and demanding two parts, so the library honours such a token nowhere - being refused is
+// grey for it ("only live tokens are honoured" is all the statement says); being honoured after revocation is not.
+func (t *mTok) colonSubject() bool { return t.Kind == "opaque" && strings.Contains(t.User, ":") }
 
 // live: issued ∧ ¬expired ∧ ¬revoked ∧ session not terminated. ID tokens cannot be revoked; whether an ID token of
 // a terminated session is still "live" is left open (DESIGN 6a C15) and handled as grey by the callers.
@@ -168,7 +174,7 @@ var scopeSets = []string{"openid", "openid profile", "openid email offline_acces
 
 func (h *hist) opMint() {
 	client := pick(h.r, "web", "web", "web2", "webj", "webj", "native")
-	user := pick(h.r, "user-1", "user-2")
+	user := pick(h.r, "user-1", "user-2", "user-1", "user-2", "user-1", "urn:user:3")
 	scopes := pick(h.r, scopeSets...)
 	extra := ""
 	if h.r.IntN(3) == 0 {
@@ -225,6 +231,10 @@ func (h *hist) opUserinfo(t *mTok) {
 	}
 	h.run.Distinct(fmt.Sprintf("%s|userinfo|%s|%s|%s|%s", h.rn, variant, t.Kind, t.Via, t.state()))
 	if t.live() {
+		if !honoured && t.colonSubject() {
+			h.run.Count("userinfo", "grey_refused_live_opaque_token_of_colon_subject")
+			return
+		}
 		if !honoured {
 			h.violate("userinfo:refused-live", fmt.Sprintf("userinfo refused live %s access token %s: %s", t.Kind, t.ref(), resp.Brief()))
 			return
@@ -369,6 +379,10 @@ func (h *hist) opIntrospect(t *mTok, callerKind string) {
 	}
 	mustActive := t.live() && inAud
 	if mustActive && authn == "yes" {
+		if (resp.Status != 200 || !active) && t.colonSubject() {
+			h.run.Count("introspect", "grey_refused_live_opaque_token_of_colon_subject")
+			return
+		}
 		if resp.Status != 200 || !active {
 			h.violate("introspect:refused-live", fmt.Sprintf("introspection by audience member %s did not report live token %s active: %s", caller, t.ref(), resp.Brief()))
 			return
@@ -501,7 +515,35 @@ func (h *hist) opRevoke() {
 		hint = "id_token"
 	}
 	wasLive := t != nil && t.live() && t.Kind != "id"
+	// one owner revocation in six meets a failing storage (the k-th storage call of the request, or the key set): an
+	// error answer leaves the model untouched (a failed call has no effect in vstore); a 200 answer means what it
+	// always means - the token is unusable from now on
+	faulted := false
+	if (role == "owner" || role == "owner-alt") && t != nil && h.r.IntN(6) == 0 {
+		faulted = true
+		if h.r.IntN(2) == 0 {
+			h.w.Store.Arm(&vstore.FaultPlan{Method: "KeySet", Kind: vstore.FaultKind(h.r.IntN(int(vstore.NumFaultKinds)))})
+		} else {
+			h.w.Store.Arm(&vstore.FaultPlan{At: 1 + h.r.IntN(4), Kind: vstore.FaultKind(h.r.IntN(int(vstore.NumFaultKinds)))})
+		}
+	}
 	resp := h.revoke(tokStr, hint, auth)
+	if faulted {
+		fired := h.w.Store.Fired() > 0
+		h.w.Store.Arm(nil)
+		if fired {
+			h.note("revoke", fmt.Sprintf("caller=%s(%s) hint=%s %s UNDER AN INJECTED STORAGE FAULT", caller, callerKind, hintKind, t.ref()), resp.Brief())
+			h.run.Eval()
+			if h.bad(resp, "revocation under a storage fault") {
+				return
+			}
+			h.run.Count("revoke", fmt.Sprintf("owner_under_storage_fault:%d", resp.Status))
+			if resp.Status != 200 {
+				return
+			}
+			h.run.Observed("revoke-200-under-storage-fault:" + h.rn)
+		}
+	}
 	desc := fmt.Sprintf("garbage %q", tokStr)
 	if t != nil {
 		desc = t.ref()
@@ -569,6 +611,12 @@ func (h *hist) opRevoke() {
 			if role == "unauthenticated" && ok200 {
 				h.violate("revoke:unauthenticated-not-refused", fmt.Sprintf("revocation request with bad client credentials (%s) answered 200", callerKind))
 			}
+			return
+		}
+		if wasLive && ok200 && t.colonSubject() && h.w.Store.TokenLive(t.ID) {
+			// the library cannot read this token (see colonSubject): to it the string is an unknown token, which is
+			// answered 200; nothing was revoked
+			h.run.Count("revoke", "grey_"+role+"_200_for_unreadable_colon_subject_token_without_effect")
 			return
 		}
 		if wasLive && ok200 {
